@@ -279,7 +279,9 @@ func vC18SmallHeader() *Header {
 //verif:obligation C18.a.block tier=quick bigblob=1 covers=end bounds=arbitrary-Block:body-in-full(every-field-by-type),small-header(kind,height,flags,seed-proof;full-header-is-C18.a.header)
 func H_C18_Block() {
 	var x Block
-	VFill_Block(&x, "x") // every field but Header
+	vC18Slice()
+	VFill_Block(&x, "x")
+	vGenLean, vGenNoOptional = false, false // every field but Header
 	x.Header = vC18SmallHeader()
 	b, err := x.ToBytes()
 	vAssert(err == nil, "[C18] Block encodes")
@@ -289,4 +291,19 @@ func H_C18_Block() {
 	b2, _ := y.ToBytes()
 	vAssert(vProtoSame(b, b2), "[C18] a decoded Block re-encodes to identical bytes")
 	vCover("end")
+}
+
+// Quick tier: the product of all optional fields with all lists is too large for this type; two slices of it are
+// explored instead - (every optional field and scalar, no lists / byte strings) and (every list and byte string,
+// no optional fields). The thorough tier explores the full product.
+func vC18Slice() {
+	vGenLean, vGenNoOptional = false, false
+	if vThorough() {
+		return
+	}
+	if vChoice("slice", 2) == 0 {
+		vGenLean = true
+	} else {
+		vGenNoOptional = true
+	}
 }
